@@ -373,6 +373,42 @@ func c17ConflictJob(tier string) *SeqJob {
 		if cbNil {
 			return "callback-got-nil-error", fmt.Sprint(histLabels(alphabet, hist)), steps
 		}
+		// reference: the first use owns the name with its family (counter, gauge, summary, histogram) and its
+		// label names; every later distinct use with another family or other label names is a registration that
+		// Prometheus rejects, and each of those must have reached the callback
+		family := func(k string) string {
+			switch {
+			case k == "timer" && tt == tprom.SummaryTimerType:
+				return "summary"
+			case k == "timer", k == "vhist", k == "dhist":
+				return "histogram"
+			}
+			return k
+		}
+		expected, seenUse := 0, map[string]bool{}
+		for i, op := range hist {
+			// a scope hands out the metric object it already has for a name and kind (value and duration
+			// histograms are one kind to it): no new registration then
+			sk := uses[op].kind
+			if sk == "vhist" || sk == "dhist" {
+				sk = "histogram"
+			}
+			sk += tagString(uses[op].tags)
+			if seenUse[sk] {
+				continue
+			}
+			seenUse[sk] = true
+			if i == 0 {
+				continue
+			}
+			o, u := uses[hist[0]], uses[op]
+			if family(o.kind) != family(u.kind) || tagString(o.tags) != tagString(u.tags) {
+				expected++
+			}
+		}
+		if len(cbErrs) < expected {
+			return "rejected-registration-not-reported", fmt.Sprintf("%v (timer type %d): %d registrations clash with the first use of the name, the error callback was invoked %d times", histLabels(alphabet, hist), int(tt), expected, len(cbErrs)), steps
+		}
 		// everything is still usable afterwards
 		res := func() (r interface{}) {
 			defer func() { r = recover() }()
@@ -388,7 +424,17 @@ func c17ConflictJob(tier string) *SeqJob {
 		}
 		return "", "", steps
 	}
-	j := &SeqJob{Property: "C17", Name: "registration-conflicts", Shards: 4}
+	// (run under the controlled scheduler: a lock left held by a panicking registration shows up as a deadlock
+	// of the next use instead of hanging the worker)
+	plainRun := run
+	run = func(tt tprom.TimerType, panicking bool, hist []int) (cl, det string, steps int) {
+		ccl, cdet := controlledCase(0, func() { cl, det, steps = plainRun(tt, panicking, hist) })
+		if ccl != "" {
+			return ccl, fmt.Sprintf("%v (timer type %d, callback panics: %v): %s", histLabels(alphabet, hist), int(tt), panicking, cdet), steps
+		}
+		return cl, det, steps
+	}
+	j := &SeqJob{Property: "C17", Name: "registration-conflicts", Shards: 4, Controlled: true}
 	j.Run = func(ctx *SeqCtx) {
 		ctx.Alphabet(alphabet...)
 		n := 0
